@@ -4,7 +4,7 @@
 # Usage: selftest_determinism.sh [N=40] [props...]
 cd /verif
 N="${1:-40}"; shift || true
-PROPS="${*:-C01 C02 C03 C04 C05 C15 C18 C20}"
+PROPS="${*:-C01 C02 C03 C04 C05 C06 C07 C08 C09 C10 C11 C13 C14 C15 C16 C17 C18 C19 C20}"
 S=$(mktemp -d "${TMPDIR:-/tmp}/pdsim-det-XXXXXX"); trap 'rm -rf "$S"' EXIT
 ./build.sh "$S" ./engine/pdsim "$S/pdsim" >"$S/build.log" 2>&1 || { cat "$S/build.log"; exit 2; }
 export GODEBUG=randseednop=0 VERIF_DIR=/verif
